@@ -11,7 +11,7 @@ SPEC = os.path.join(os.path.dirname(os.path.dirname(os.path.abspath(__file__))),
 def _components(prefix, got, want):
     """pairwise components of two values for per-component reporting"""
     if want is not None and not A.is_form(want) and want[0] in ("struct", "match") and got is not None and not A.is_form(got) and got[0] == want[0]:
-        keys = sorted(set(want[1]) | set(got[1]))
+        keys = sorted(k for k in set(want[1]) | set(got[1]) if not str(k).startswith("__"))
         for k in keys:
             yield from _components(f"{prefix}.{k}" if prefix else k, got[1].get(k), want[1].get(k))
         return
